@@ -38,6 +38,23 @@ def _get(F, rep, rule, path):
     return bs[0]
 
 
+def bytes_to_le_rules(F, rep, P):
+    """byteorder::Endianness::bytes_to_le: a no-op for little-endian input, a full reversal of every sample for big-endian"""
+    for end, want in (("byteorder::LittleEndian", "noop"), ("byteorder::BigEndian", "reverse")):
+        bs = [b for b in F.bodies if b.promoted is None and b.path == "<%s as byteorder::Endianness>::bytes_to_le" % end]
+        if not bs:
+            rep.bad(P + ".endian", "anchor:%s::bytes_to_le" % end, "", "not found")
+            continue
+        b = bs[0]
+        names = [strip_generics(callee_name(t)).rsplit("::", 1)[-1] for _, t in b.calls()]
+        if want == "noop":
+            good = not names
+        else:
+            good = "reverse" in names and "chunks_exact_mut" in names and not any(n in ("swap", "rotate_left", "rotate_right", "swap_with_slice") for n in names)
+        rep.check(P + ".endian", "%s::bytes_to_le %s" % (end.rsplit("::", 1)[1], "leaves the bytes alone" if want == "noop" else "reverses every sample (chunks of bytes_per_sample)"), good, loc_of(b), str(names),
+                  "byte order conversion of %s input does not %s: samples of some widths are scrambled before hashing / encoding" % (end.rsplit("::", 1)[1], "leave the bytes alone" if want == "noop" else "reverse all bytes of each sample"))
+
+
 def run(ctx, rep):
     F = ctx.facts()
     ok = OkImplies(F, ctx.cg())
@@ -126,6 +143,7 @@ def run(ctx, rep):
 
     # ---- C07.count ---------------------------------------------------------------------------------------
     iolib.count_rules(ctx, rep, "C07")
+    bytes_to_le_rules(F, rep, "C07")
 
     # ---- C07.endian ----------------------------------------------------------------------------------------
     rows = 0
@@ -164,3 +182,5 @@ def run(ctx, rep):
             pass
     from rules import castlib
     rep.floor("C07.cast", "narrowing casts inspected", castlib.cast_audit(ctx, rep, "C07", ['decode.rs', 'audio.rs', 'byteorder.rs', 'crc.rs']), 10)
+    from rules import C05 as _C05
+    _C05.run(ctx, SubReport(rep, "C05", "C07.valid", only=r"^C05\.(short|eof)$"))
